@@ -484,3 +484,42 @@ def reset_table(idx, rep, rid):
     miss = [f"{k} (children {st[k + '.children']}, value {st[k + '.value']!r}, match {st[k + '.match']!r})" for k in want if got is None or got.count(k) != 1]
     rep.check(len(ps) == 1 and not miss, rid, f"{fi.file}::Matchable.reset reaches every child",
               f"{len(ps)} path(s); children not reset exactly once: {miss[:3]} — such a component keeps last line's answer on the next line", K.where(fi, fi.node))
+
+
+PER_LINE_STATE = {
+    # class: the attributes its per-line entry points (matches / to_value and what they call) fill in — confirmed by reading; lazily
+    # initialised memos that are meant to last (Reference.ref, Matchable._id) are not per-line state
+    "Args": ("matched", "_args_match"),
+    "Equality": ("value", "match", "DO_WHEN", "sentinel"),
+    "Header": ("value", "match"),
+    "Variable": ("value", "match"),
+    "Reference": ("value", "match"),
+    "Expression": ("match", "errors"),
+    "Function": ("value", "match"),
+    "First": ("match", "_my_value_or_none"),
+}
+
+
+def reset_clears(idx, rep, rid, classes=None):
+    """what a component's per-line methods leave behind is gone after its reset(): every attribute in PER_LINE_STATE is overwritten by
+    reset() (own or inherited, super() followed) whatever it held — otherwise one line's verdict, value, error flag or re-entry guard
+    leaks into the next line"""
+    bad = None
+    n = 0
+    for cls, attrs in PER_LINE_STATE.items():
+        if classes is not None and cls not in classes:
+            continue
+        fr = idx.method(cls, "reset")
+        rep.analysed(fr)
+        st = {"self.children": []}
+        for a in attrs:
+            st[f"self.{a}"] = "<left over from the last line>"
+        it = Interp(idx, types={"self": cls}, unknown_calls="residual", inline={f"{c.name}.{p_}" for c in idx.mro(cls) for p_ in c.properties})
+        ps = it.run_all(fr, store=st)
+        n += 1
+        for p_ in ps:
+            left = [a for a in attrs if p_.final_store.get(f"self.{a}") == "<left over from the last line>"]
+            if p_.result[0] != "return" or left:
+                bad = bad or (f"{cls}.reset() (resolved to {fr.qual}) leaves {left or p_.result} as the last line left it: the next line starts with that line's "
+                              "verdict / value / argument-error flag / re-entry guard")
+    rep.check(bad is None and n > 0, rid, "csvpath/matching::reset() clears the per-line state of the components", bad or f"{n} classes", "csvpath/matching/")
